@@ -87,15 +87,30 @@ class VM2:
         raise AsmError(fmt)
 
     def put(self, mem, addr, v, n):
+        if isinstance(addr, tuple):
+            base = addr[1]
+            for k in range(n):
+                mem[('r', base + k)] = ((v >> (8 * k)) & 0xFF) if isc(v) else (('w', v, k) if n > 1 else (self.simp(z3.Extract(7, 0, v)) if v.size() > 8 else v))
+            return
         if isc(v):
             v &= (1 << (8 * n)) - 1
             for k in range(n): mem[addr + k] = (v >> (8 * k)) & 0xFF
+        elif n == 1:
+            mem[addr] = self.simp(z3.Extract(7, 0, v)) if v.size() > 8 else v
         else:
-            for k in range(n): mem[addr + k] = self.simp(z3.Extract(8 * k + 7, 8 * k, v))
+            for k in range(n): mem[addr + k] = ('w', v, k)
 
     def get(self, mem, addr, n, size):
-        if addr < 0 or addr + n > size: raise Unspecified(f'access outside section at {addr}')
-        bs = [mem.get(addr + k, 0) for k in range(n)]
+        if isinstance(addr, tuple):
+            bs = [mem.get(('r', addr[1] + k), 0) for k in range(n)]
+        else:
+            if addr < 0 or addr + n > size: raise Unspecified(f'access outside section at {addr}')
+            bs = [mem.get(addr + k, 0) for k in range(n)]
+        if all(isc(b) for b in bs):
+            return sum(b << (8 * k) for k, b in enumerate(bs))
+        if n > 1 and all(isinstance(b, tuple) and b[0] == 'w' and b[2] == k and b[1] is bs[0][1] for k, b in enumerate(bs)) and bs[0][1].size() == 8 * n:
+            return bs[0][1]
+        bs = [self.simp(z3.Extract(8 * b[2] + 7, 8 * b[2], b[1])) if isinstance(b, tuple) else b for b in bs]
         if all(isc(b) for b in bs):
             return sum(b << (8 * k) for k, b in enumerate(bs))
         t = self.Z(bs[0], 8)
@@ -147,9 +162,15 @@ class VM2:
         if a.kind == 'state': return self.get(st['mem'], addr, self.W, self.sizes['state'])
         return self.get(self.const, addr, self.W, self.sizes['const'])
 
+    AP0 = None
     def resolve_addr(self, st, conds, addr, work):
         """return concrete address; fork on other feasible values"""
         if isc(addr): return addr, conds
+        if self.AP0 is not None:
+            off = self.simp(addr - self.AP0)
+            if isc(off):
+                if off >> (self.B - 1): off -= (1 << self.B)
+                return ('r', off), conds
         vals = self.values_of(addr, conds)
         if not vals: raise Unspecified('infeasible path at address resolution')
         if len(vals) > self.addr_cap: raise Unspecified(f'address has > {self.addr_cap} values: {addr}')
@@ -168,6 +189,12 @@ class VM2:
             st['steps'] += 1; self.nsteps += 1
             pc = st['pc']
             if not (0 <= pc < len(P.code)): raise Unspecified(f'pc {pc} outside code')
+            fo = getattr(self, 'func_of', None)
+            if fo is not None:
+                pp = st.get('prev_pc')
+                if pp is not None and pc == pp + 1 and fo[pc] != fo[pp]:
+                    res.append(('falloff', conds, st['ev'], (pp, pc))); return
+                st['prev_pc'] = pc
             ins = P.code[pc]; op = ins.op; A = ins.args
             if op[0] == 'h':
                 if op == 'halt': c = True
@@ -209,7 +236,7 @@ class VM2:
                 snap = dict(st); snap['pc'] = tgt; snap['mem'] = dict(st['mem'])
                 # cycle detection: same target, same memory, same events => runs forever
                 if tgt <= pc:
-                    key = (tgt, hash(frozenset((k, v if isc(v) else v.hash()) for k, v in st['mem'].items())), len(st['ev']))
+                    key = (tgt, hash(frozenset((k, v if isc(v) else (v[1].hash(), v[2]) if isinstance(v, tuple) else v.hash()) for k, v in st['mem'].items())), len(st['ev']))
                     if key in st['seen']:
                         res.append(('diverge', conds, st['ev'], tgt)); return
                     st['seen'] = st['seen'] | {key}
@@ -271,7 +298,7 @@ class VM2:
                     o = self.opval(st, A[1])
                     addr = (addr + o) & M if isc(addr) and isc(o) else self.simp(self.Z(addr) + self.Z(o))
                 addr, conds = self.resolve_addr(st, conds, addr, work)
-                if addr < 0 or addr + n > self.sizes['state']: raise Unspecified(f'store outside state at {addr}')
+                if not isinstance(addr, tuple) and (addr < 0 or addr + n > self.sizes['state']): raise Unspecified(f'store outside state at {addr}')
                 v = self.opval(st, A[-1])
                 self.put(st['mem'], addr, v, n); st['pc'] = pc + 1; continue
             raise AsmError('unknown op ' + op)
